@@ -334,6 +334,34 @@ fn mutants(w: &World, p: &Pending, rng: &mut Rng, other_reply: Option<&Slate>, p
 	}
 	// payment proof alterations
 	if r.payment_proof.is_some() {
+		// attacker-level: the requested recipient itself signs - with its real proof key - over another amount, and
+		// states that amount in the reply
+		if p.flow != Flow::SelfSend {
+			if let Some(first) = p.first.as_ref() {
+				let kc1 = w.wallets[1].keychain();
+				let recipient_key = w.wallets[1].active_account().ok().and_then(|parent| libwallet::address::address_from_derivation_path(&kc1, &parent, 0).ok()).and_then(|sk| ed25519_dalek::SecretKey::from_bytes(&sk.0).ok()).map(|sk| {
+					let pk: ed25519_dalek::PublicKey = (&sk).into();
+					ed25519_dalek::Keypair { secret: sk, public: pk }
+				});
+				let keys: Vec<&grin_util::secp::key::PublicKey> = first.participant_data.iter().chain(r.participant_data.iter()).map(|x| &x.public_blind_excess).collect();
+				let final_excess = grin_util::secp::key::PublicKey::from_combination(kc1.secp(), keys).ok().and_then(|k| Commitment::from_pubkey(kc1.secp(), &k).ok());
+				if let (Some(kp), Some(ex)) = (recipient_key, final_excess) {
+					for (name, stated) in [("proof by the requested recipient over a smaller amount, that amount stated in the reply", p.amount / 60 + 1), ("proof by the requested recipient over a larger amount, that amount stated in the reply", p.amount.saturating_mul(3))].iter() {
+						let mut s = r.clone();
+						if let Some(pp) = s.payment_proof.as_mut() {
+							if pp.receiver_address == kp.public {
+								let mut msg = stated.to_be_bytes().to_vec();
+								msg.extend_from_slice(&ex.0);
+								msg.extend_from_slice(&pp.sender_address.to_bytes());
+								pp.receiver_signature = Some(kp.sign(&msg));
+								s.amount = *stated;
+								v.push((name.to_string(), s));
+							}
+						}
+					}
+				}
+			}
+		}
 		let other_key = crate::gen::ed_keypair(&[0x31u8; 32]);
 		let excess = r.calc_excess(w.wallets[0].keychain().secp()).ok();
 		let mut pm = |name: &str, f: &dyn Fn(&mut Slate)| {
@@ -878,6 +906,110 @@ fn proof_in_callers_orders(w: &mut World, rep: &mut Report, rng: &mut Rng, prop:
 	}
 }
 
+/// Two accounts of the sender whose pending sends carry the same per-account log id: cancelling the one in the
+/// active account must leave the other account's send - its reserved inputs - alone, so that whatever finalize_tx
+/// then returns for it still spends exactly inputs reserved for it.
+fn cancel_in_another_account_then_finalize(w: &mut World, rep: &mut Report, rng: &mut Rng, prop: &str) {
+	fund(w);
+	let case = json!({"job": prop, "scenario": "pending sends with the same log id in two accounts; the one in the active account is cancelled, then the other (no change output) is finalized"});
+	let r = (|| -> Result<Option<(Slate, Slate, u32)>, libwallet::Error> {
+		let wal = &w.wallets[0];
+		let _ = wal.create_account("acct1");
+		// coins of its own for acct1
+		wal.set_account("acct1")?;
+		Ok(None)
+	})();
+	if r.is_err() {
+		return;
+	}
+	let _ = w.mine_n(Some(0), 2);
+	let _ = w.wallets[0].set_account("default");
+	let _ = w.mine_n(None, 4);
+	let r = (|| -> Result<Option<(Slate, Slate, u32)>, libwallet::Error> {
+		let wal = &w.wallets[0];
+		for l in ["acct1", "default"].iter() {
+			wal.set_account(l)?;
+			wal.refresh()?;
+		}
+		let accts = wal.accounts()?;
+		let path = |l: &str| accts.iter().find(|a| a.label == l).map(|a| a.path.clone());
+		let (pd, p1) = match (path("default"), path("acct1")) {
+			(Some(a), Some(b)) => (a, b),
+			_ => return Ok(None),
+		};
+		let txs = wal.all_txs()?;
+		let (cd, c1) = (txs.iter().filter(|t| t.parent_key_id == pd).count(), txs.iter().filter(|t| t.parent_key_id == p1).count());
+		// pad the account with fewer entries with pending receipts until both will hand out the same next log id
+		let (label, n) = if cd > c1 { ("acct1", cd - c1) } else { ("default", c1 - cd) };
+		if n > 80 {
+			return Ok(None);
+		}
+		for k in 0..n {
+			let s = w.wallets[1].init_send(InitTxArgs { amount: 50_000_000 + k as u64, minimum_confirmations: 1, selection_strategy_is_use_all: false, ..Default::default() })?;
+			wal.receive(&s, Some(label))?;
+		}
+		// X in default, Y (no change: one whole coin, fee taken from the amount) in acct1
+		let x = wal.init_send(InitTxArgs { amount: 1_000_000_000 + rng.below(1_000_000_000), minimum_confirmations: 1, selection_strategy_is_use_all: false, ..Default::default() })?;
+		wal.lock_outputs(&x)?;
+		let height = w.node.chain().head().map(|h| h.height).unwrap_or(0);
+		let coin = wal.all_outputs()?.into_iter().filter(|o| o.root_key_id == p1 && o.eligible_to_spend(height, 1)).map(|o| o.value).max().unwrap_or(0);
+		let y = wal.init_send(InitTxArgs { src_acct_name: Some("acct1".into()), amount: coin, amount_includes_fee: Some(true), minimum_confirmations: 1, max_outputs: 1, num_change_outputs: 1, selection_strategy_is_use_all: false, ..Default::default() })?;
+		wal.lock_outputs(&y)?;
+		let y2 = w.wallets[1].receive(&y, None)?;
+		let txs = wal.all_txs()?;
+		let xe = txs.iter().find(|t| t.tx_slate_id == Some(x.id) && t.parent_key_id == pd).map(|t| t.id);
+		let ye = txs.iter().find(|t| t.tx_slate_id == Some(y.id) && t.parent_key_id == p1).map(|t| t.id);
+		if xe.is_none() || xe != ye {
+			return Ok(None);
+		}
+		wal.cancel(xe, None)?;
+		Ok(Some((y, y2, ye.unwrap())))
+	})();
+	let (y, y2, ye) = match r {
+		Ok(Some(x)) => x,
+		Ok(None) => {
+			rep.count("cross-account-cancel:ids-not-aligned");
+			cleanup(w);
+			return;
+		}
+		Err(e) => {
+			rep.count(&format!("cross-account-cancel:setup-refused:{}", err_kind(&e)));
+			cleanup(w);
+			return;
+		}
+	};
+	rep.eval();
+	let wal = &w.wallets[0];
+	match catch(|| wal.finalize(&y2)) {
+		Err((loc, msg)) => rep.violation(&format!("{}|panic|{}", prop, loc), &msg, case),
+		Ok(Err(e)) => rep.count(&format!("cross-account-cancel:finalize-refused:{}", err_kind(&e))),
+		Ok(Ok(s3)) => {
+			let outs = wal.all_outputs().unwrap_or_default();
+			let mut bad = vec![];
+			if let Some(tx) = s3.tx.as_ref() {
+				for c in tx.inputs_committed() {
+					if let Some(o) = outs.iter().find(|o| wal.commit_of(o) == c) {
+						if o.status != OutputStatus::Locked || o.tx_log_entry != Some(ye) {
+							bad.push(format!("{} value {} is {} (entry link {:?})", idstr(&o.key_id), o.value, status_str(&o.status), o.tx_log_entry));
+						}
+					}
+				}
+			}
+			if bad.is_empty() {
+				rep.count("cross-account-cancel:other-accounts-send-finalized-with-inputs-reserved");
+				rep.distinct(&("cross-account-cancel", "ok"));
+			} else {
+				rep.violation(&format!("{}|finalized-after-cancel-in-another-account|inputs-not-reserved", prop), &format!("after the pending send with log id {} of the default account was cancelled, finalize_tx of account acct1's send with the same log id returned a transaction whose inputs are not reserved: {:?}", ye, bad), case);
+			}
+		}
+	}
+	let _ = w.wallets[0].set_account("acct1");
+	let _ = w.wallets[0].cancel(None, Some(y.id));
+	let _ = w.wallets[0].set_account("default");
+	let _ = w.wallets[1].cancel(None, Some(y.id));
+	cleanup(w);
+}
+
 /// A late-locked send driven in the order the command-line `send` uses: init_send_tx(late_lock), then
 /// tx_lock_outputs (the CLI calls it after every init), the recipient's reply, finalize_tx - retried once if
 /// refused. Whatever is returned from finalization must spend exactly inputs reserved for that send.
@@ -1090,6 +1222,9 @@ pub fn run(a: &Args, prop: &'static str) {
 		cancelled_then_finalized(&mut w, &mut rep, &mut rng, prop, a.shard % 2 == 1);
 		late_lock_cli_order(&mut w, &mut rep, &mut rng, prop, a.shard % 2 == 0);
 		late_lock_cli_order(&mut w, &mut rep, &mut rng, prop, a.shard % 2 == 1);
+		if a.shard % 3 == 0 {
+			cancel_in_another_account_then_finalize(&mut w, &mut rep, &mut rng, prop);
+		}
 	}
 	if proof_focus {
 		named_account_scenario(&mut w, &mut rep, &mut rng, prop, a.shard % 2 == 1);
